@@ -7,7 +7,7 @@
     header block is the same bytes for every transport and protocol: C04; end-to-end: C03). *)
 From Coq Require Import ZArith List.
 From FV Require Import Base.Res Base.Bytes Model.Headers Model.Receivers Model.Context
-  Proofs.HeadersMapProofs Proofs.ContextProofs Proofs.ContextWireProofs.
+  Proofs.HeadersMapProofs Proofs.ContextProofs Proofs.ContextWireProofs Proofs.ContextCallProofs.
 Import ListNotations.
 Open Scope Z_scope.
 
@@ -62,6 +62,46 @@ Theorem c09_timeout_whole_milliseconds : forall ms,
 Proof. exact parse_format_int_nonneg. Qed.
 Print Assumptions c09_timeout_whole_milliseconds.
 
+(** THE WHOLE CALL ([whole_call]: the function the correspondence judge runs for every call made
+    through a real FBaseProcessor, normal replies and RESPONSE_TOO_LARGE error replies alike): the
+    caller's context carries an op id, the handler adds [hadd] to the context it is given, the
+    response headers fit a frame. When the call returns, under every name but _opid the caller's
+    response map holds the handler context's entry if there is one -- the handler's LAST value for
+    that name, or the correlation id under _cid -- and otherwise what the caller had before; the
+    caller's _opid entry and request headers are untouched; and the handler's context held exactly
+    the caller's request headers under all names but _opid, with a fresh op id. *)
+Theorem c09_whole_call : forall s i c op hadd s',
+  good s -> ctx_at s i = Some c -> header_size (req_of s c) < 2147483648 ->
+  lookup opid_header (req_of s c) = Some op ->
+  header_size (handler_resp op (correlation_id s c) hadd) < 2147483648 ->
+  whole_call s i hadd = Some s' ->
+  (forall k, k <> opid_header ->
+     lookup k (resp_of s' c) =
+       match lookup k (handler_resp op (correlation_id s c) hadd) with
+       | Some v => Some v
+       | None => lookup k (resp_of s c)
+       end)
+  /\ lookup opid_header (resp_of s' c) = lookup opid_header (resp_of s c)
+  /\ req_of s' c = req_of s c
+  /\ exists cj, nth_error (ctxs s') (length (ctxs s)) = Some cj
+       /\ (forall k, k <> opid_header -> lookup k (req_of s' cj) = lookup k (req_of s c))
+       /\ lookup opid_header (req_of s' cj) = Some (format_uint ((next_op s + 1) mod two64))
+       /\ resp_of s' cj = handler_resp op (correlation_id s c) hadd.
+Proof. exact whole_call_spec. Qed.
+Print Assumptions c09_whole_call.
+
+(** what the handler's entry is, name by name: its last value for the name, else the correlation id
+    under _cid, else the request's op id under _opid, else nothing *)
+Theorem c09_handler_entry : forall op cid hadd k,
+  lookup k (handler_resp op cid hadd) =
+    match lookup k hadd with
+    | Some v => Some v
+    | None => if bytes_eqb k cid_header then (match cid with [] => None | _ => Some cid end)
+              else if bytes_eqb k opid_header then Some op else None
+    end.
+Proof. exact handler_entry. Qed.
+Print Assumptions c09_handler_entry.
+
 (** the fresh op id of the handler's context differs from the op id of every context that exists
     (so it can be used for onward calls): C17's c17_opids_distinct applied to the extended history *)
 
@@ -91,6 +131,26 @@ Example c09_nonvacuous :
       | None => False
       end
     | None => False
+    end
+  | None => False
+  end.
+Proof. vm_compute. repeat split; discriminate. Qed.
+
+(** non-vacuity of c09_whole_call: its premises hold on a concrete call and its conclusion is visible *)
+Example c09_whole_call_nonvacuous :
+  let ops := [ONew [99; 105; 100]; OAdd 0 MReq [117] [49]] in
+  let hadd := [([114], [50]); ([114], [51]); (opid_header, [57])] in
+  match run (init 6) ops with
+  | Some s =>
+    match ctx_at s 0, whole_call s 0 hadd with
+    | Some c, Some s' =>
+      header_size (req_of s c) < 2147483648
+      /\ lookup opid_header (req_of s c) = Some [55]
+      /\ header_size (handler_resp [55] (correlation_id s c) hadd) < 2147483648
+      /\ lookup [114] (resp_of s' c) = Some [51]
+      /\ lookup cid_header (resp_of s' c) = Some [99; 105; 100]
+      /\ lookup opid_header (resp_of s' c) = None
+    | _, _ => False
     end
   | None => False
   end.
